@@ -73,4 +73,14 @@ CHECKS = {
         ],
         assumptions=SIM_ASSUMPTIONS + ["byte-level coverage-guided fuzzing is outside this technique family and not claimed"],
     ),
+    "C19": dict(
+        level="model_checking",
+        rule="part 1: status(12 incl. transport error) x ETag header(3) x Retry-After(5) x body(6) x strict/loose x plain/etag executor x cache state(3) on the real webhookExecutor.Call; "
+             "part 2: ALL interleavings of 2 (thorough: 3 -> 1680 schedules) concurrent calls with the same cache key at the granularity enrich-headers / server decision / adjust+decode, x every pattern of server content changes x cache primed or empty",
+        units=[
+            dict(pkg=HOOKS, test="TestVerifC19", shards=dict(quick=2, thorough=8), budget=dict(quick=300, thorough=900)),
+        ],
+        assumptions=["scripted HttpClientInterface instead of a socket; each phase performs at most one ETag-cache operation, so phase interleavings are complete for this code (Lipton reduction)"],
+        traces_are_evals=True,
+    ),
 }
